@@ -13,9 +13,10 @@ CONSTANTS
   Keyed = ${Keyed}
   Batch = ${Batch}
   GarbageOn = ${GarbageOn}
+  UpBatch = ${UpBatch}
 SPECIFICATION SpecE
 VIEW View
 ${EMIT}
-INVARIANTS TypeOK NoSendOnClosed NoLeak SocketReleased RightDestination RepliesToOwner
+INVARIANTS TypeOK NoSendOnClosed NoLeak SocketReleased RightDestination RepliesToOwner BatchHeldOnlyWhilePacking
 ${PROPS}
 CHECK_DEADLOCK FALSE
